@@ -68,7 +68,9 @@ func changedTargets(state *core.BuildState, files []string, changed map[*core.Bu
 	}
 
 	if level != 0 {
-		revdeps := FindRevdeps(state, labels, true, false, includeSubrepos, level)
+		// A target that names a changed one as a dependency is affected even if require / provide gives it
+		// something else instead: what it gets is decided by the changed target's definition.
+		revdeps := findRevdeps(state, labels, true, false, includeSubrepos, true, level)
 		for dep := range revdeps {
 			if _, present := changed[dep]; !present {
 				labels = append(labels, dep.Label)
